@@ -304,3 +304,13 @@ theorem C03_http_unary_order_facts :
     Gen.unaryMetadataBeforeOutcome = true ∧ Gen.unaryClientMetadataBeforeStatus = true := by decide
 
 end HttpUnary
+
+namespace Metadata
+
+/-- regenerated from httpgrpc/io.go: `asMetadata` does nothing to a header value but base-64-decode a `-bin` one and
+    append it — it never splits, trims or joins values (the functions it calls, sorted). This is what the model's
+    per-value decoding (`md_roundtrip`) assumes of the decoder's control flow. -/
+theorem C03_as_metadata_keeps_values_whole :
+    Gen.asMetadataCalls = ["DecodeString", "HasSuffix", "ToLower", "append", "string"] := by decide
+
+end Metadata
